@@ -2,9 +2,9 @@
    This file holds ONLY the statements of the property theorems, each closed by `exact <lemma>`, and
    `Print Assumptions` beneath.  Model: Model/Ser.v (serialization/serializer.go, types/basiccollector.go,
    serialization/deserializer.go).  Proofs: Proofs/SerProofs.v (simulation serializer state / collector
-   state), Proofs/SerWfProofs.v (stream well-formedness). *)
+   state), Proofs/SerWfProofs.v (stream well-formedness), Proofs/SerDeserProofs.v (deserializer). *)
 From Coq Require Import ZArith NArith Bool List.
-From PcoreV Require Import Model.Base Model.Ser Proofs.SerProofs Proofs.SerWfProofs.
+From PcoreV Require Import Model.Base Model.Ser Proofs.SerProofs Proofs.SerWfProofs Proofs.SerDeserProofs.
 Import ListNotations.
 
 (* ---- the stream is well formed: for EVERY value (no assumption on the identity tags) and every point of
@@ -38,6 +38,13 @@ Theorem C10_refs_resolve_to_equal_value :
 Proof. exact @collect_serialize. Qed.
 Print Assumptions C10_refs_resolve_to_equal_value.
 
+(* wf_rich is decided (sufficiently) by the pairwise checker that the correspondence run applies to every
+   case: the reflected Go values do satisfy the hypothesis of the theorems above and below *)
+Theorem C10_wf_rich_checker :
+  forall x : @rvalue str, wf_richb (rvalue_eqb str_eqb) x = true -> wf_rich x.
+Proof. exact wf_richb_str_sound. Qed.
+Print Assumptions C10_wf_rich_checker.
+
 (* the simulation invariant itself (DESIGN.md 5/C10): processing x from ANY pair of related states —
    R: length positions = refIndex, and every entry (value -> index) of the values map points to a position
    holding the image of that value, or belongs to a container that is still open (op) — delivers exactly
@@ -53,6 +60,74 @@ Theorem C10_simulation :
       R to_s e m op st' (pos ++ new) /\ first_is new (image to_s e x).
 Proof. exact @to_data_spec. Qed.
 Print Assumptions C10_simulation.
+
+(* ---- the round trip ----
+   roundtrip = serialize, collect, deserialize (Model/Ser.v).  The result is compared in the universe pvalue,
+   which has no identities: Sensitive is compared by its content.  expected = the value itself (erase) when
+   rich_data is on, the documented lossy image (degrade: Default -> 'default', values without a Data form ->
+   their String(), non-string keys -> String() for a consumer without complex keys) when it is off.
+   Hypothesis on the parameters: the constructor from a string inverts the serialization string (checked on
+   the implementation per kind by the harness).
+   Guard rt_ok: the open finding user-hash-ptype-key (see C10_ptype_key_refuted). *)
+Theorem C10_roundtrip :
+  forall (payload : Type) (to_s : str -> payload -> str) (of_s : str -> str -> option payload),
+    (forall tn p, of_s tn (to_s tn p) = Some p) ->
+    forall (o : opts) (c : caps) (x : @rvalue payload),
+      wf_rich x -> rt_ok to_s (env_of o c) x = true ->
+      roundtrip to_s of_s o c x = Ok (expected (env_of o c) x).
+Proof. exact @roundtrip_rich. Qed.
+Print Assumptions C10_roundtrip.
+
+(* the plain Data fragment (scalars, strings, arrays, string-keyed hashes, any sharing) comes back as itself
+   under ALL options and capabilities, whatever the string forms of rich scalars are *)
+Theorem C10_data_roundtrip :
+  forall (payload : Type) (to_s : str -> payload -> str) (of_s : str -> str -> option payload)
+         (o : opts) (c : caps) (x : @rvalue payload),
+    is_data x = true -> wf_rich x -> rt_ok to_s (env_of o c) x = true ->
+    roundtrip to_s of_s o c x = Ok (erase x).
+Proof. exact @roundtrip_data. Qed.
+Print Assumptions C10_data_roundtrip.
+
+(* the deserializer half on its own: applied to the reference-free image it rebuilds the expected value *)
+Theorem C10_deser_image :
+  forall (payload : Type) (to_s : str -> payload -> str) (of_s : str -> str -> option payload) (e : env)
+         (x : @rvalue payload),
+    strs_ok to_s of_s x -> rt_ok to_s e x = true ->
+    deser of_s (image to_s e x) = Ok (expected e x).
+Proof. exact @deser_image. Qed.
+Print Assumptions C10_deser_image.
+
+(* The full statement of the property, without the guard, is false of the (faithful) model: open finding
+   user-hash-ptype-key.  {'__ptype' => 'x'} is read back as an object of type x. *)
+Definition C10_statement : Prop :=
+  forall (payload : Type) (to_s : str -> payload -> str) (of_s : str -> str -> option payload),
+    (forall tn p, of_s tn (to_s tn p) = Some p) ->
+    forall (o : opts) (c : caps) (x : @rvalue payload),
+      wf_rich x -> roundtrip to_s of_s o c x = Ok (expected (env_of o c) x).
+
+Definition ex_ptype : @rvalue str := VHash 1 [(VStr ptype_key, [], VStr [120]%N)].
+
+Theorem C10_ptype_key_refuted :
+  exists x : @rvalue str,
+    wf_rich x /\ is_data x = true /\
+    roundtrip (fun _ p => p) (fun _ s => Some s) (mkopts true true 2) (mkcaps true true 0) x
+      = Ok (PObj (PStr [120]%N) []) /\
+    expected (env_of (mkopts true true 2) (mkcaps true true 0)) x = PHash [(PStr ptype_key, PStr [120]%N)].
+Proof.
+  exists ex_ptype. split; [|split; [reflexivity|split; vm_compute; reflexivity]].
+  exists (fun _ => ex_ptype). apply consistent_hash; [reflexivity|].
+  repeat constructor; now apply consistent_untagged_leaf.
+Qed.
+Print Assumptions C10_ptype_key_refuted.
+
+Theorem C10_statement_refuted : ~ C10_statement.
+Proof.
+  intros H. destruct C10_ptype_key_refuted as (x & Hwf & _ & Hrt & Hex).
+  specialize (H str (fun _ p => p) (fun _ s => Some s) (fun _ _ => eq_refl)
+                (mkopts true true 2) (mkcaps true true 0) x Hwf).
+  rewrite Hrt, Hex in H. discriminate.
+Qed.
+Print Assumptions C10_statement_refuted.
 
 (* ---- non-vacuity: a value with a shared array, a shared string and a Sensitive, serialized with maximal
    de-duplication to a consumer without binary/complex keys: the stream contains back-references, is well
@@ -82,3 +157,30 @@ Example C10_ex_stream :
    EHash 2; EAdd (DStr ptype_key); EAdd (DStr t_sensitive); EAdd (DStr pvalue_key); ERef 2; EEnd;
    ERef 2; EEnd].
 Proof. vm_compute. reflexivity. Qed.
+
+(* the hypotheses of C10_roundtrip are satisfiable and the round trip computes: the value above comes back
+   with the Sensitive compared by content, under maximal de-duplication *)
+Example C10_ex_rt_ok : rt_ok (fun _ p => p) (env_of (mkopts true true 2) (mkcaps false false 0)) ex_shared = true.
+Proof. vm_compute. reflexivity. Qed.
+
+Example C10_ex_roundtrip :
+  roundtrip (fun _ p => p) (fun _ s => Some s) (mkopts true true 2) (mkcaps false false 0) ex_shared =
+  Ok (PArr [PArr [PStr [97;98;99]%N; PInt 7]; PArr [PStr [97;98;99]%N; PInt 7]; PSens (PStr [97;98;99]%N);
+            PStr [97;98;99]%N]).
+Proof. vm_compute. reflexivity. Qed.
+
+(* rich_data off: the Sensitive degrades to its String(), which is itself de-duplicated *)
+Example C10_ex_lossy :
+  roundtrip (fun _ p => p) (fun _ s => Some s) (mkopts false true 1) (mkcaps false false 0)
+    (VArr 1 [VSens 2 (VInt 1); VSens 3 (VInt 2); VInt 5; VSens 2 (VInt 1)]%N) =
+  Ok (PArr [PStr s_sensitive; PStr s_sensitive; PInt 5; PStr s_sensitive]).
+Proof. vm_compute. reflexivity. Qed.
+
+Example C10_ex_wf_richb : wf_richb (rvalue_eqb str_eqb) ex_shared = true.
+Proof. vm_compute. reflexivity. Qed.
+
+(* a cyclic tag assignment is rejected by the checker, and the model's collector faults on its stream *)
+Example C10_ex_cyclic :
+  wf_richb (rvalue_eqb str_eqb) (VArr 1 [VArr 1 []]%N) = false /\
+  collect (serialize (fun _ (p : str) => p) (mkopts true true 2) (mkcaps true true 0) (VArr 1 [VArr 1 []]%N)) = Fault.
+Proof. split; vm_compute; reflexivity. Qed.
